@@ -301,14 +301,16 @@ def rand_name(rng):
 def grid_cases(ctx: Ctx):
     uid = 0
     for name, gaps, f, agree, k in itertools.product(GRID_NAMES, itertools.product((0, 1), repeat=4), (256, 512, 1024),
-                                                    (True, False), ("2", "1/2")):
+                                                    (True, False, "span"), ("2", "1/2")):
         c = [5_000_000_000]
         for i, g in enumerate(gaps):
             c.append(c[-1] + g * (1024 * (i + 3)))
         pair = stmt_pair(name)
         a, b = pair
         ts = 1_000_000.0 + 16 * len(name)
-        dur = float(Fraction(c[b] - c[a]) / f) if agree else 77.5
+        # agree: the host window is the phase's own delta; "span": it is exactly the device span from TS1 to the end
+        # counter of the phase (the first conversion pass then has nothing to adjust); else: unrelated
+        dur = float(Fraction(c[b] - c[0]) / f) if agree == "span" else float(Fraction(c[b] - c[a]) / f) if agree else 77.5
         uid += 1
         yield {"freq": f, "k": k, "tag": "grid", "events": [
             {"uid": uid, "ph": "X", "name": name, "ts": ts, "dur": dur, "tsx": c}]}
